@@ -232,7 +232,7 @@ def do_op(state, cfg, root, op):
 
 def client_main(idx, case, root, ev_w, go_r):
     cfg = case['backend']
-    clock = SimClock()
+    clock = SimClock(slot=idx + 1)
     skew = (case.get('skew') or [])
     if idx < len(skew):
         clock.now += skew[idx]
@@ -693,7 +693,7 @@ def execute(case, prop, ctx):
                 'steps': 0, 'shape': 'stuck', 'nontrivial': True, 'obs_digest': 'stuck', 'sim_s': 0}
 
     def final_read():
-        fs = SimFS(root, clock=SimClock(), order='sorted')
+        fs = SimFS(root, clock=SimClock(slot=7), order='sorted')
         fs.install()
         with fs:
             try:
